@@ -112,3 +112,34 @@ Proof.
   - rewrite app_nil_r, bits_cmp_refl. exists 0. cbn [length] in L2. repeat split; lia.
   - rewrite bits_cmp_prefix by discriminate. exists (-1). cbn [length] in L2. repeat split; try reflexivity; lia.
 Qed.
+
+(** * a whole sorted key list *)
+From Low Require Import Lib.Val Spec.BitstrSearchSpec.
+
+Lemma search_all ks b : Forall bytes_ok ks ->
+  opt_all (map (fun k => CmpUpto k (encB b)) ks) = Some (spec_search ks b).
+Proof.
+  induction 1 as [|k ks Hk Hks IH]; [reflexivity|].
+  cbn [map opt_all spec_search]. rewrite CmpUpto_encB by exact Hk.
+  fold (spec_search ks b). now rewrite IH.
+Qed.
+
+Lemma search_nondec ks b : Forall bytes_ok ks -> keys_sortedb ks = true ->
+  nondecb (spec_search ks b) = true.
+Proof.
+  induction 1 as [|k1 ks Hk1 Hks IH]; [reflexivity|].
+  destruct ks as [|k2 ks]; [reflexivity|]. intros S.
+  cbn [keys_sortedb] in S. apply andb_prop in S as [S1 S2].
+  cbn [spec_search map nondecb]. apply andb_true_intro. split.
+  - apply Z.leb_le. apply bits_cmp_sign_mono. inversion Hks; subst.
+    apply upto_mono; try assumption. now destruct (bytes_cmp k1 k2).
+  - apply IH. exact S2.
+Qed.
+
+Lemma search_sorted ks b : Forall bytes_ok ks -> keys_sortedb ks = true ->
+  exists rs, opt_all (map (fun k => CmpUpto k (encB b)) ks) = Some rs /\
+             rs = spec_search ks b /\ nondecb rs = true.
+Proof.
+  intros H S. exists (spec_search ks b). split; [now apply search_all|]. split; [reflexivity|].
+  now apply search_nondec.
+Qed.
